@@ -10,8 +10,10 @@ VARIABLES tb
 L(s) == [k |-> "lit", s |-> s]
 Dyn(n) == [k |-> "dyn", name |-> n]
 Tl(n) == [k |-> "tail", name |-> n]
-Res(pat, guard, data, dflt, routes) == [t |-> "res", pat |-> pat, guard |-> guard, data |-> data, dflt |-> dflt, routes |-> routes]
-Scope(prefix, guard, data, dflt, children) == [t |-> "scope", prefix |-> prefix, guard |-> guard, data |-> data, dflt |-> dflt, children |-> children]
+ResX(pats, guard, hg, data, dflt, routes) == [t |-> "res", pats |-> pats, guard |-> guard, hg |-> hg, data |-> data, dflt |-> dflt, routes |-> routes]
+Res(pat, guard, data, dflt, routes) == ResX(<<pat>>, guard, FALSE, data, dflt, routes)
+ScopeX(prefix, guard, hg, data, dflt, children) == [t |-> "scope", prefix |-> prefix, guard |-> guard, hg |-> hg, data |-> data, dflt |-> dflt, children |-> children]
+Scope(prefix, guard, data, dflt, children) == ScopeX(prefix, guard, FALSE, data, dflt, children)
 R(m, id) == [m |-> m, id |-> id]
 \* leaf resources (ids 11..19) usable inside scopes; patterns are relative to the scope
 Leaves == <<
@@ -19,7 +21,10 @@ Leaves == <<
   Res(<<L(<<"/">>), Dyn("y")>>, "any", 5, 0, <<R("any", 12)>>),
   Res(<<L(<<"/">>), Dyn("y"), L(<<"/", "b">>)>>, "GET", 0, 0, <<R("GET", 13), R("any", 14)>>),
   Res(<<>>, "any", 0, 15, <<R("POST", 16)>>),
-  Res(<<L(<<"/">>), Tl("t")>>, "any", 0, 0, <<R("GET", 17)>>) >>
+  Res(<<L(<<"/">>), Tl("t")>>, "any", 0, 0, <<R("GET", 17)>>),
+  \* one resource with two patterns (the second one dynamic); a resource behind two guards
+  ResX(<< <<L(<<"/", "1">>)>>, <<L(<<"/">>), Dyn("y"), L(<<"/", "b">>)>> >>, "any", FALSE, 0, 0, <<R("any", 23)>>),
+  ResX(<< <<L(<<"/", "b">>)>> >>, "GET", TRUE, 0, 0, <<R("any", 24)>>) >>
 Inner == <<
   Scope(<<L(<<"/", "b">>)>>, "any", 6, 0, <<Leaves[1], Leaves[2]>>),
   Scope(<<L(<<"/">>), Dyn("z")>>, "GET", 0, 18, <<Leaves[4]>>) >>
@@ -35,7 +40,12 @@ Tops == <<
   Res(<<L(<<"/">>), Dyn("p")>>, "any", 0, 22, <<R("GET", 4)>>),
   Res(<<L(<<"/">>), Dyn("p"), L(<<"/">>), Dyn("q")>>, "any", 0, 0, <<R("GET", 5)>>),
   Res(<<L(<<"/">>), Tl("t")>>, "GET", 0, 0, <<R("any", 6)>>),
-  Res(<<L(<<"/">>)>>, "any", 0, 0, <<R("GET", 7)>>) >>
+  Res(<<L(<<"/">>)>>, "any", 0, 0, <<R("GET", 7)>>),
+  Scope(<<L(<<"/", "a">>)>>, "any", 0, 0, <<Leaves[6], Leaves[2]>>),
+  Scope(<<L(<<"/", "a">>)>>, "any", 0, 0, <<Leaves[7], Leaves[1]>>),
+  ScopeX(<<L(<<"/", "a">>)>>, "POST", TRUE, 0, 25, <<Leaves[1]>>),
+  ResX(<< <<L(<<"/", "b">>)>>, <<L(<<"/">>), Dyn("p"), L(<<"/", "1">>)>> >>, "any", FALSE, 0, 0, <<R("GET", 8)>>),
+  ResX(<< <<L(<<"/", "a">>)>> >>, "GET", TRUE, 0, 0, <<R("any", 9)>>) >>
 Tables == {[children |-> c, data |-> d, dflt |-> df] :
              c \in UNION {{s \in [1..n -> 1..Len(Tops)] : \A i, j \in 1..n : i # j => s[i] # s[j]} : n \in 1..MaxTop},
              d \in {1}, df \in {0, 30}}
@@ -47,7 +57,7 @@ Spec == Init /\ [][Next]_tb
 Segs == {<<>>, <<"a">>, <<"b">>, <<"1">>, <<"a", "%", "2", "F", "b">>}
 ProbePaths == {<<"/">>} \cup {<<"/">> \o s : s \in Segs \ {<<>>}} \cup {<<"/">> \o s1 \o <<"/">> \o s2 : s1 \in Segs \ {<<>>}, s2 \in Segs}
               \cup {<<"/">> \o s1 \o <<"/">> \o s2 \o <<"/">> \o s3 : s1 \in {<<"a">>, <<"1">>}, s2 \in {<<"b">>, <<"1">>}, s3 \in {<<"b">>, <<"a">>, <<>>}}
-Sane == \A p \in ProbePaths, m \in {"GET", "POST"} :
-          LET w == Walk(Concrete(tb).children, p, m, <<>>, 1, tb.dflt, tb.dflt, FALSE) IN w.status \in {200, 404, 405}
+Sane == \A p \in ProbePaths, m \in {"GET", "POST"}, hx \in BOOLEAN :
+          LET w == Walk(Concrete(tb).children, p, m, hx, <<>>, 1, tb.dflt, tb.dflt, FALSE) IN w.status \in {200, 404, 405}
 EmitCase == PrintT(<<"CASE", ToJson([table |-> Concrete(tb)])>>)
 =======================================================================================
